@@ -12,8 +12,10 @@ COMMON_ASSUME = [
 
 PROPS = {
     "C10": {
-        "lean_modules": ["MiniMoka.Props.C10", "MiniMoka.Props.C10Sync", "MiniMoka.Props.C10Order", "MiniMoka.Props.ConcS", "MiniMoka.Props.ConcM", "MiniMoka.Props.ConcF"],
-        "theorems": ["MiniMoka.Props.ConcF_C10_quiescent", "MiniMoka.Props.ConcF_racing_update_covered", "MiniMoka.Props.ConcF_counterexample_dirty_order",
+        "lean_modules": ["MiniMoka.Props.C10", "MiniMoka.Props.C10Sync", "MiniMoka.Props.C10Order", "MiniMoka.Props.ConcS", "MiniMoka.Props.ConcM", "MiniMoka.Props.ConcF", "MiniMoka.Props.ConcB"],
+        "theorems": ["MiniMoka.Props.ConcB_counted_once", "MiniMoka.Props.ConcB_flags_independent", "MiniMoka.Props.ConcB_counterexample_packed_racy",
+                     "MiniMoka.Props.ConcB_packedAtomic_refines_separate", "MiniMoka.Props.ConcB_applyWrite_granularity",
+                     "MiniMoka.Props.ConcF_C10_quiescent", "MiniMoka.Props.ConcF_racing_update_covered", "MiniMoka.Props.ConcF_counterexample_dirty_order",
                      "MiniMoka.Props.ConcM_C10_quiescent",
                      "MiniMoka.Props.ConcS_C10_quiescent", "MiniMoka.Props.ConcS_C10_after_maint", "MiniMoka.Props.ConcS_counterexample_D10",
                      "MiniMoka.Props.C10_unsync", "MiniMoka.Props.C10_sync",
@@ -32,7 +34,7 @@ PROPS = {
         "audit_kinds": ["map_write", "counter", "flag_write"],
         "corpus": ["C10", "D1", "D2", "D3", "D4", "D7", "D8", "D10"],
         "assumptions": COMMON_ASSUME,
-        "level_text": "Unsync: proved for every configuration, hash function, weigher and history (theorem C10_unsync: every snapshot after any operation has entry_count = |map| and weighted_size = sum of weights; by the inductive invariant InvU over all operations). Sync driven by one thread: proved for every configuration and history, any placement of sync() and any queue state (C10_sync; stronger: C10_sync_every_quiescent_snapshot, at every snapshot with an empty write queue): entry_count = |map|, weighted_size = sum of stored weights = sum of weigher(k, v) over the residents; by the invariant that every list node's info is the map's current one or awaits a queued Remove, every unadmitted map entry awaits a queued Upsert, and weighted_size is the sum of the accounted weights. The repaired defects D7b and D8 are machine-checked counterexamples under their switches. Towards concurrent schedules: the result of a maintenance run does not depend on the order of the queued write ops (C10_sync_queue_order_independent: for ANY permutation of the write queue of an invariant-satisfying state the counters come out exact; with the D10 switch on, the inverted queue that two racing threads can produce gives a wrong weighted_size: C10_sync_counterexample_D10). For all interleavings of any number of threads at the granularity of ConcS.lean the counters are exact whenever no thread holds a write and the write queue is empty, in particular right after a maintenance run (ConcS_C10_quiescent, ConcS_C10_after_maint; D10 as a two-thread interleaving: ConcS_counterexample_D10), and likewise for the finer models in which other threads' steps interleave inside a maintenance run (ConcM_C10_quiescent) and even between the individual map accesses of one queued upsert (ConcF_C10_quiescent; ConcF_racing_update_covered is the reason the dirty flag is cleared before the current entry is looked up: the seeded change that swaps the two, kept as the variant ConcF_counterexample_dirty_order, ends with an inexact weighted_size). Real threads: quiescent counters of the real-thread component (this is what found D10); the step from ConcS to the real scheduler is not proved.",
+        "level_text": "Unsync: proved for every configuration, hash function, weigher and history (theorem C10_unsync: every snapshot after any operation has entry_count = |map| and weighted_size = sum of weights; by the inductive invariant InvU over all operations). Sync driven by one thread: proved for every configuration and history, any placement of sync() and any queue state (C10_sync; stronger: C10_sync_every_quiescent_snapshot, at every snapshot with an empty write queue): entry_count = |map|, weighted_size = sum of stored weights = sum of weigher(k, v) over the residents; by the invariant that every list node's info is the map's current one or awaits a queued Remove, every unadmitted map entry awaits a queued Upsert, and weighted_size is the sum of the accounted weights. The repaired defects D7b and D8 are machine-checked counterexamples under their switches. Towards concurrent schedules: the result of a maintenance run does not depend on the order of the queued write ops (C10_sync_queue_order_independent: for ANY permutation of the write queue of an invariant-satisfying state the counters come out exact; with the D10 switch on, the inverted queue that two racing threads can produce gives a wrong weighted_size: C10_sync_counterexample_D10). For all interleavings of any number of threads at the granularity of ConcS.lean the counters are exact whenever no thread holds a write and the write queue is empty, in particular right after a maintenance run (ConcS_C10_quiescent, ConcS_C10_after_maint; D10 as a two-thread interleaving: ConcS_counterexample_D10), and likewise for the finer models in which other threads' steps interleave inside a maintenance run (ConcM_C10_quiescent) and even between the individual map accesses of one queued upsert (ConcF_C10_quiescent; ConcF_racing_update_covered is the reason the dirty flag is cleared before the current entry is looked up: the seeded change that swaps the two, kept as the variant ConcF_counterexample_dirty_order, ends with an inexact weighted_size). Real threads: quiescent counters of the real-thread component (this is what found D10); the step from ConcS to the real scheduler is not proved. The detailed models treat each write of an entry's `admitted` / `dirty` flag as an atomic step that leaves the other flag alone; ConcB.lean makes that assumption a model of its own (one entry, any number of overwriting clients, one maintenance role; flags as two atomics, as one byte with atomic read-modify-write, and as one byte with load-then-store): with the first two the entry is counted exactly when its admitted flag is set, never twice, for all interleavings (ConcB_counted_once, ConcB_flags_independent, ConcB_packedAtomic_refines_separate), with the third — the seeded change C10f — a client's stale store wipes the admitted bit and the entry is counted twice (ConcB_counterexample_packed_racy).",
         "level_note": "Theorems are about the Lean models Unsync.lean and Sync.lean; tie = white-box differential runs (counters and map compared after every op) + counter/map-write site audit. Sketch table < 2^28 slots assumed. Four machine-checked counterexamples keep the repaired defects D1-D4 visible.",
     },
     "C01": {
@@ -167,8 +169,8 @@ PROPS = {
         "level_note": "Tie = differential runs with drop-counting key/value types, live counts in every snapshot and after drop. One genuine defect found this way and repaired (D11: an update left a second copy of the key alive in the list nodes).",
     },
     "C12": {
-        "lean_modules": ["MiniMoka.Props.C12", "MiniMoka.Props.C13Sync", "MiniMoka.Props.C12Exp"],
-        "theorems": ["MiniMoka.Props.C12_unsync_growth_expiry", "MiniMoka.Props.C12_unsync_purge_exact", "MiniMoka.Props.C12_unsync_timestamps_sorted",
+        "lean_modules": ["MiniMoka.Props.C12", "MiniMoka.Props.C13Sync", "MiniMoka.Props.C12Exp", "MiniMoka.Props.C12SyncGrowth"],
+        "theorems": ["MiniMoka.Props.C12_sync_growth", "MiniMoka.Props.C12_sync_growth_state", "MiniMoka.Props.C12_unsync_growth_expiry", "MiniMoka.Props.C12_unsync_purge_exact", "MiniMoka.Props.C12_unsync_timestamps_sorted",
                      "MiniMoka.Props.C12_sync_oracle", "MiniMoka.Props.C12_sync_recency", "MiniMoka.Props.C12_sync_recency_state",
                      "MiniMoka.Props.C12_unsync_oracle", "MiniMoka.Props.C12_unsync_recency", "MiniMoka.Props.C12_unsync_admission_victims",
                      "MiniMoka.Props.C12_unsync_growth_eviction", "MiniMoka.Props.C12_unsync_no_growth_eviction",
@@ -182,7 +184,7 @@ PROPS = {
         "audit_kinds": ["deque_op", "map_write"],
         "corpus": ["C12"],
         "assumptions": COMMON_ASSUME,
-        "level_text": "Single-threaded cache, proved for every configuration, hash, weigher and state satisfying the structural invariant (hence every reachable state): the victims of an admission are exactly the shortest prefix of the recency order (least recently used first) whose weights cover the missing room (C12_unsync_admission_victims, C12_prefLen_meaning); the size eviction after a growing update removes exactly the LRU prefix needed, at most one batch per call, and nothing when within capacity (C12_unsync_growth_eviction, _no_growth_eviction); the recency order itself is the order of last use (insert, update, successful get), for any number of operations between two observations; contains_key, iteration and invalidation only remove from it (C12_unsync_recency, C12_recency_order); the trace oracle used on implementation runs accepts every model trace (C12_unsync_oracle). With stale residents present (some residents already past a deadline when the next lookup runs, the cache over capacity after a growing update): the lookup purges exactly the stale residents first (all of them when they fit one batch: C12_unsync_purge_exact, from the new invariant that both lists are sorted by timestamp, C12_unsync_timestamps_sorted) and only then removes the shortest LRU prefix of the REMAINING residents that covers the REMAINING excess; the oracle for this window (growthExpC12, which rejects a purge in the other order) accepts every model trace (C12_unsync_growth_expiry). Concurrent cache driven by one thread: proved for every configuration and history that the same oracle accepts every model trace (C12_sync_oracle): admission victims are the shortest LRU prefix (C13_sync_admission) and, between two quiescent snapshots with one use, the access order is the survivors in their old order followed by the used key (C12_sync_recency, C12_sync_recency_state: maintenance applies recorded reads then writes; expiry, eviction and invalidation only remove; skipped nodes are never current).",
+        "level_text": "Single-threaded cache, proved for every configuration, hash, weigher and state satisfying the structural invariant (hence every reachable state): the victims of an admission are exactly the shortest prefix of the recency order (least recently used first) whose weights cover the missing room (C12_unsync_admission_victims, C12_prefLen_meaning); the size eviction after a growing update removes exactly the LRU prefix needed, at most one batch per call, and nothing when within capacity (C12_unsync_growth_eviction, _no_growth_eviction); the recency order itself is the order of last use (insert, update, successful get), for any number of operations between two observations; contains_key, iteration and invalidation only remove from it (C12_unsync_recency, C12_recency_order); the trace oracle used on implementation runs accepts every model trace (C12_unsync_oracle). With stale residents present (some residents already past a deadline when the next lookup runs, the cache over capacity after a growing update): the lookup purges exactly the stale residents first (all of them when they fit one batch: C12_unsync_purge_exact, from the new invariant that both lists are sorted by timestamp, C12_unsync_timestamps_sorted) and only then removes the shortest LRU prefix of the REMAINING residents that covers the REMAINING excess; the oracle for this window (growthExpC12, which rejects a purge in the other order) accepts every model trace (C12_unsync_growth_expiry). Concurrent cache driven by one thread: proved for every configuration and history that the same oracle accepts every model trace (C12_sync_oracle): admission victims are the shortest LRU prefix (C13_sync_admission) and, between two quiescent snapshots with one use, the access order is the survivors in their old order followed by the used key (C12_sync_recency, C12_sync_recency_state: maintenance applies recorded reads then writes; expiry, eviction and invalidation only remove; skipped nodes are never current). Who leaves after an entry of the concurrent cache grew: in every window `sync, snap, [freq,] ins k v, [snap,] sync, snap` with empty queues in which k is resident in a calm cache and v is not heavier than the capacity, the update makes k the most recently used entry, the total becomes ws - old + new, and the maintenance run removes exactly the shortest prefix of the recency order (old order without k, then k, with k's new weight) that covers the excess, and nothing else (C12_sync_growth: the oracle growthC12Sync accepts every model trace, both housekeeping regimes; C12_sync_growth_state is the state-level form).",
         "level_note": "Theorems about Unsync.lean; tie = white-box differential runs comparing the whole access-order deque after every operation.",
     },
     "C13": {
